@@ -1,5 +1,7 @@
 """C16 — safe_contextmanager / safe_async_contextmanager: exhaustive correspondence between the real decorators (driven through real
-`with` / `async with` statements, asyncio for the async variant) and the Lean model + try/finally spec."""
+`with` / `async with` statements, asyncio for the async variant) and the Lean model + try/finally spec.  The user generator functions
+are real source files (plain `setup; yield; cleanup`, or with try / with blocks of their own around the yield); decoration cases and a
+sample of uses also run in child interpreters in optimised mode (-O, -OO, PYTHONOPTIMIZE=1)."""
 import itertools, json, inspect
 
 RULE = ('exhaustive in both tiers: setup outcome (ok + 7 exception kinds incl. a StopIteration raised by user code) x yields reached '
@@ -22,15 +24,35 @@ RULE = ('exhaustive in both tiers: setup outcome (ok + 7 exception kinds incl. a
         '(histories): every interleaving of the enter / exit events of 2 uses x cleanup outcomes x block outcomes, every interleaving '
         'of 3 uses, seeded random histories of <= 5 live uses; sync uses are generators suspended inside a real `with`, async uses '
         'are asyncio tasks inside a real `async with`, stepped deterministically through events.  Concrete exception classes per kind, '
-        'return-vs-break and real event-loop suspension in setup/cleanup are drawn from the rng.  non-trivial = something raised or left early')
+        'return-vs-break and real event-loop suspension in setup/cleanup are drawn from the rng.  '
+        'GENERATORS WITH BLOCKS OF THEIR OWN AROUND THE YIELD (all generator functions are real .py files of a temp dir, so that inspect.getsource works): '
+        '22 skeletons (yield inside try/finally, try/except <class> [raise], try/except/else/finally, several handlers, a with block, two nested blocks; handler '
+        'classes Exception / BaseException / bare / RuntimeError / StopIteration / GeneratorExit / CancelledError / one that never matches; the yield statement itself '
+        'plain or inside for / if / while) x further cleanup statements behind the block {0, 1} x where the cleanup raises (nowhere, right after the yield, '
+        'each slot of the exception-free path: rest of a try body, else, finally / __exit__, trailing; an except clause that raises as well) x every block outcome '
+        'x {sync, async} x {single, the same manager nested in itself, repeated; thorough: nested in / around another manager}; such generators are also drawn into the '
+        'random programs and the random histories.  INTERPRETER MODES: every decoration case (every function kind and wrapper x both decorators) and a sample '
+        'of managers in use run again in child interpreters started with -O, with -OO and with PYTHONOPTIMIZE=1 (exhaustive matrix decoration target x mode).  '
+        'CANCELLATION DURING AN AWAIT OF THE MANAGER (async): the setup / the statement after the yield asks for its own task to be cancelled and awaits, so that a real '
+        'CancelledError arrives while __aenter__ / __aexit__ is suspended in `await anext(iterator)`: every structure x every block outcome, every skeleton of generators with '
+        'blocks of their own, every interleaving of two overlapping uses.  non-trivial = something raised or left early')
 EXHAUSTIVE = {'quick': True, 'thorough': True}
 ASSUMPTIONS = ['async variant: every await is an atomic step of the model; other tasks run only while a use is suspended inside its block (the history machine), '
-               'not between two awaits of one __aenter__ / __aexit__',
+               'not between two awaits of one __aenter__ / __aexit__; a cancellation that arrives while __aenter__ / __aexit__ is suspended in the setup / cleanup of the '
+               'user generator is the environment transition "that section raises a CancelledError" (exercised with real task cancellation); a cancellation delivered at any '
+               'other await of contextlib itself is not modelled',
                'the user generator is scripted: setup; yield v; cleanup; [yield v; extra]* with a chosen outcome per section',
-               'claims (P_X) only for generators in the documented one-yield form; zero-/multi-yield generators are modelled and compared only']
+               'claims (P_X) only for generators in the documented one-yield form; zero-/multi-yield generators are modelled and compared only',
+               "a generator's own blocks around its yield: try statements (handlers, else, finally) and with blocks, any nesting, straight-line clause bodies "
+               '(journal a statement / raise an exception object / bare re-raise at the end of a handler); exception classes at kind level; the statements of these blocks '
+               'never raise a kind Python converts when it leaves a generator frame (Stop(Async)Iteration); `return` inside such a block is not modelled']
 TRUSTED = ['CPython 3.12 contextlib._GeneratorContextManager / _AsyncGeneratorContextManager, PEP 479 and the with statement are transcribed in '
            'Model/CtxMgr.lean and exercised exhaustively against the interpreter, not verified',
            'inspect.isgeneratorfunction / isasyncgenfunction classify the function kinds; the harness labels each test function with the same predicates',
+           "Python's semantics of try / except / else / finally and of a with block inside the USER generator (`resume` in Model/CtxMgr.lean) is environment shared by model and "
+           'specification ("the code after the yield, run as ordinary code"); it is exercised by the correspondence streams, not verified',
+           'optimised interpreter mode is the one fact `opt` (assert statements are compiled away, __debug__ is False); the child interpreters report sys.flags.optimize',
+
            'Python argument binding of the user generator function is environment: whether a tuple binds (`fits`) is computed by calling a plain function with the same parameter list '
            'and cross-checked against the real call of the generator function; "received unchanged" = the parameters of the generator hold what a direct call f(*pos, **kw) binds (identity-wise, order of **kwargs included)']
 
@@ -137,15 +159,26 @@ def norm_args(a):
     return a
 
 
+# async only: the section (setup / the statement after the yield) asks for its own task to be cancelled and then awaits: the
+# CancelledError - an object asyncio creates - arrives DURING that await, i.e. while `__aenter__` / `__aexit__` of the manager is
+# suspended in `await anext(iterator)`.  For the model this is the section raising a CancelledError (kind `cancelled`, an
+# interpreter-made object: id >= CONV).
+CANCEL_REAL = 'cancel-real'
+
+
 def converted(mode, kind):
     return kind == 'stopIteration' or (mode == 'async' and kind == 'stopAsyncIteration')
 
 
-def mk_exc(rng, kind, oid, cause=None):
+def mk_exc(rng, kind, oid, cause=None, tame=False):
+    """tame: no KeyboardInterrupt / SystemExit (for statements that a broken implementation may leave to the garbage collector: inside an
+    event loop these two classes are re-raised out of the loop itself)"""
     kind, classes = split_kind(kind)
     # ordinary draws include the falsy classes now and then as well
     if kind in FALSY_CLASSES and classes is KIND_CLASSES[kind] and rng.random() < 0.15:
         classes = FALSY_CLASSES[kind]
+    if tame:
+        classes = [c for c in classes if c not in ('KeyboardInterrupt', 'SystemExit')]
     return [kind, oid, cause, rng.choice(classes)]
 
 
@@ -153,6 +186,8 @@ def gen_exc(rng, mode, kind, oid):
     """exception leaving the *user generator*: user code raising Stop(Async)Iteration surfaces as a RuntimeError chained to it"""
     if kind is None:
         return None
+    if kind == CANCEL_REAL:
+        return ['cancelled', CONV + oid, None, 'real-cancel']
     if converted(mode, split_kind(kind)[0]):
         return ['runtimeError', CONV + oid, oid, 'user:' + rng.choice(KIND_CLASSES[kind])]
     return mk_exc(rng, kind, oid)
@@ -178,7 +213,7 @@ def rand_ret(rng, mode):
     return mk_ret(rng, mode, rng.choice([None, None, 'none', 'falsy', 'truthy', 'truthy']))
 
 
-def mk_gen(rng, mode, tag, setup, yields, cleanup, base, mgr=None, sig=None, returns='draw'):
+def mk_gen(rng, mode, tag, setup, yields, cleanup, base, mgr=None, sig=None, returns='draw', body=None):
     """cleanup: None | kind | ('same', E) | ('chained', E);  mgr: which decorated manager object this use calls (default: one of
     its own, decorated for this use);  sig: signature of that manager's generator function"""
     g = {'tag': tag, 'yields': yields, 'value': VAL0 + tag, 'suspend': rng.random() < 0.5,
@@ -190,6 +225,8 @@ def mk_gen(rng, mode, tag, setup, yields, cleanup, base, mgr=None, sig=None, ret
         g['mgr'] = mgr
     if sig is not None:
         g['sig'] = sig
+    if body is not None:
+        g['body'] = body
     if isinstance(cleanup, tuple):
         how, be = cleanup
         g['cleanup'] = list(be) if how == 'same' else ['runtimeError', base + 2, be[1], rng.choice(KIND_CLASSES['runtimeError'])]
@@ -252,6 +289,186 @@ def build(rng, mode, struct, setup, yields, cleanup, body, returns='draw'):
             'x': {'tag': f'{mode}/{struct}/{branch}', 'trivial': branch == 'allok'}}
 
 
+# ---- generators that protect (part of) their cleanup themselves: try / with blocks of their own around the yield, statements behind them
+#
+#   setup; try: yield v; <after>; <rest> except C: <handler> [raise] else: <else> finally: <fin>  (nested, innermost first); <trailing>
+#
+# A body on the wire: {'syn': what the yield statement sits in, 'frames': [{'kind': 'try'|'with', 'rest': ACTS, 'handlers': [[class, ACTS, reraise]],
+# 'else': ACTS|None, 'fin': ACTS|None, 'finExc': ACTS|None}] (innermost first), 'trail': ACTS};  ACTS = [['ev', p] | ['raise', EXC]].
+# The exception kinds raised there are never kinds Python converts when they leave a generator frame.
+ACT_KINDS = ['exception', 'baseExc', 'runtimeError', 'cancelled', 'generatorExit', 'exception!', 'baseExc!']
+CATCH_KINDS = ['exception', 'baseExc', 'runtimeError']      # enumerated where an `except` clause of the generator may see the exception
+
+
+def FR(kind='try', handlers=(), els=False, fin=False, rest=True):
+    return {'kind': kind, 'handlers': [tuple(h) for h in handlers], 'else': els, 'fin': fin, 'rest': rest}
+
+
+SKELS = [   # (name, frames innermost first)
+    ('bare', []),
+    ('finally', [FR(fin=True)]),
+    ('finally-norest', [FR(fin=True, rest=False)]),
+    ('except-Exception', [FR(handlers=[('Exception', False)])]),
+    ('except-Exception-reraise', [FR(handlers=[('Exception', True)])]),
+    ('except-BaseException', [FR(handlers=[('BaseException', False)])]),
+    ('except-bare-reraise', [FR(handlers=[('bare', True)])]),
+    ('except-nomatch', [FR(handlers=[('ArithmeticError', False)])]),
+    ('except-StopIteration', [FR(handlers=[('StopIteration', False)])]),
+    ('except-Exception-finally', [FR(handlers=[('Exception', False)], fin=True)]),
+    ('except-Exception-reraise-finally', [FR(handlers=[('Exception', True)], fin=True)]),
+    ('except-BaseException-else-finally', [FR(handlers=[('BaseException', False)], els=True, fin=True)]),
+    ('except-RuntimeError-Exception-finally', [FR(handlers=[('RuntimeError', False), ('Exception', True)], fin=True)]),
+    ('except-GeneratorExit-reraise-finally', [FR(handlers=[('GeneratorExit', True)], fin=True)]),
+    ('except-CancelledError-reraise', [FR(handlers=[('CancelledError', True)])]),
+    ('with', [FR(kind='with')]),
+    ('finally-in-finally', [FR(fin=True), FR(fin=True)]),
+    ('finally-in-except', [FR(fin=True), FR(handlers=[('Exception', False)])]),
+    ('except-reraise-in-finally', [FR(handlers=[('Exception', True)]), FR(fin=True)]),
+    ('with-in-finally', [FR(kind='with'), FR(fin=True)]),
+    ('finally-in-with', [FR(fin=True, rest=False), FR(kind='with')]),
+    ('except-in-except-finally', [FR(handlers=[('BaseException', False)]), FR(handlers=[('Exception', False)], fin=True)]),
+]
+
+
+def mk_body(rng, frames, ntrail, raises=None, syn=None):
+    """raises: {slot: EXC}: the statements of that slot are `piece; raise EXC; piece` (the second piece never runs)"""
+    raises = raises or {}
+
+    def acts(slot, p, present=True):
+        a = [['ev', p]] if present else []
+        if slot in raises:
+            a += [['raise', raises[slot]], ['ev', p + 100]]
+        return a
+    out = []
+    for i, f in enumerate(frames):
+        fr = {'kind': f['kind'], 'rest': acts(f'r{i}', 10 + i, f['rest']),
+              'handlers': [[c, acts(f'h{i}_{j}', 30 + 10 * i + j), rr] for j, (c, rr) in enumerate(f['handlers'])],
+              'else': acts(f'e{i}', 50 + i) if f['else'] else None, 'fin': None, 'finExc': None}
+        if f['kind'] == 'with':
+            fr['fin'], fr['finExc'] = acts(f'f{i}', 70 + i), acts(f'x{i}', 80 + i)
+        elif f['fin']:
+            fr['fin'] = fr['finExc'] = acts(f'f{i}', 70 + i)       # one finally clause: the same statements with and without a pending exception
+        out.append(fr)
+    trail = []
+    for n in range(ntrail):
+        trail += acts(f't{n}', 90 + n)
+    return {'syn': syn or rng.choice(SYNS), 'frames': out, 'trail': trail}
+
+
+def normal_slots(frames, ntrail):
+    """the slots that run when the generator is resumed normally and nothing raises (an `except` clause is none of them)"""
+    out = []
+    for i, f in enumerate(frames):
+        out.append(f'r{i}')
+        if f['else']:
+            out.append(f'e{i}')
+        if f['kind'] == 'with' or f['fin']:
+            out.append(f'f{i}')
+    return out + [f't{n}' for n in range(ntrail)]
+
+
+def handler_slots(frames):
+    return [f'h{i}_{j}' for i, f in enumerate(frames) for j in range(len(f['handlers']))]
+
+
+def build_shaped(rng, mode, struct, name, frames, ntrail, slot, kind, body, hraise=False):
+    """one use of a generator with the given blocks; `slot`: where its cleanup raises (None / 'after' = the statement right after the
+    yield / a slot of the blocks), `hraise`: its first except clause raises as well (when it runs)"""
+    lf, be = leaf(rng, 0, body, 7)
+    syn = rng.choice(SYNS)
+    raises = {}
+    if slot not in (None, 'after'):
+        raises[slot] = mk_exc(rng, kind, 16, tame=True)
+    hs = handler_slots(frames)
+    if hraise and hs:
+        raises[hs[0]] = mk_exc(rng, 'baseExc', 17, tame=True)
+    mgr = 'M' if struct.startswith('self-') else None
+    shape = struct[5:] if mgr else struct
+    g = mk_gen(rng, mode, 1, None, 1, kind if slot == 'after' else None, 10, mgr, body=mk_body(rng, frames, ntrail, raises, syn))
+
+    def other():     # the other use: the same manager object (same source), or a manager of its own with blocks drawn
+        if mgr:
+            return mk_gen(rng, mode, 2, None, 1, None, 20, mgr, body=mk_body(rng, frames, ntrail, {}, syn))
+        return mk_gen(rng, mode, 2, None, 1, None, 20, None, body=rand_body(rng, 26) if rng.random() < 0.7 else None)
+    if shape == 'single':
+        p = ['with', g, ARGS, lf]
+    elif shape in ('nest-in', 'in'):
+        p = ['with', other(), ARGS, ['with', g, ARGS, lf]]
+    elif shape in ('nest-out', 'out'):
+        p = ['with', g, ARGS, ['with', other(), ARGS, lf]]
+    else:
+        p = ['seq', ['with', g, ARGS, lf], ['with', other(), ARGS, ['body', 1, ['normal']]]]
+    where = 'noraise' if slot is None else 'after' if slot == 'after' else slot[0]
+    return {'m': 'ctxmgr', 'c': {'kind': 'prog', 'mode': mode, 'prog': p},
+            'x': {'tag': f"{mode}/blocks/{struct}/{name}{'+trail' if ntrail else ''}/{where}{'+h' if hraise else ''}", 'trivial': False}}
+
+
+def rand_body(rng, exc_base, skel=None):
+    """blocks drawn: a skeleton, 0-2 trailing statements, up to two raising slots (ids exc_base, exc_base + 1, …)"""
+    name, frames, *syn = skel or rng.choice(SKELS)
+    ntrail = rng.choice([0, 1, 1, 2])
+    slots = normal_slots(frames, ntrail) + handler_slots(frames)
+    raises = {}
+    for n in range(rng.choice([0, 0, 0, 1, 1, 2])):
+        if slots:
+            raises[rng.choice(slots)] = mk_exc(rng, rng.choice(ACT_KINDS), exc_base + n, tame=True)
+    return mk_body(rng, frames, ntrail, raises, syn[0] if syn else None)
+
+
+def shape_cases(rng, tier):
+    """every skeleton x trailing statements {0, 1} x where the cleanup raises (nowhere / each slot on the exception-free path) x block
+    outcome, single use; the same manager nested in itself, nested in another one and used twice over fewer block outcomes"""
+    out = []
+    few = ['normal', 'brk', 'exception', 'baseExc', 'stopIteration', 'cancelled']
+    if tier == 'quick':      # (the falsy exception instances are drawn into the ordinary kinds now and then)
+        structs = [('single', [b for b in BODIES if not b.endswith('!')]), ('self-in', ['normal', 'exception', 'baseExc', 'stopIteration']), ('rep-first', ['exception'])]
+    else:
+        structs = [('single', BODIES), ('self-in', BODIES), ('rep-first', few)]
+    if tier == 'thorough':
+        structs += [('nest-in', BODIES), ('nest-out', few), ('self-out', few)]
+    for mode in ('sync', 'async'):
+        for name, frames in SKELS:
+            for ntrail in ((1, 2) if not frames else (0, 1)):
+                inside = {'after'} | {f'r{i}' for i in range(len(frames))}         # an except clause of the generator may see these
+                combos = [(None, None, False)]
+                for slot in ['after'] + normal_slots(frames, ntrail):
+                    kinds = CATCH_KINDS if slot in inside and handler_slots(frames) else ACT_KINDS if tier == 'thorough' else [rng.choice(ACT_KINDS)]
+                    combos += [(slot, k, False) for k in kinds]
+                    if slot in inside and handler_slots(frames):
+                        combos += [(slot, k, True) for k in (CATCH_KINDS if tier == 'thorough' else ['exception'])]
+                for slot, kind, hraise in combos:
+                    for struct, bodies in structs:
+                        for body in bodies:
+                            out.append(build_shaped(rng, mode, struct, name, frames, ntrail, slot, kind, body, hraise))
+    return out
+
+
+def cancel_cases(rng, tier):
+    """async: a real cancellation of the running task arrives while `__aenter__` is suspended in the setup / while `__aexit__` is
+    suspended in the cleanup (plain generators and generators with try / with blocks of their own), x every block outcome"""
+    out = []
+    for struct in ('single', 'nest-in', 'nest-in-outerfails', 'nest-out', 'rep-first', 'self-in', 'self-out'):
+        for body in BODIES:
+            out.append(build(rng, 'async', struct, None, 1, CANCEL_REAL, body))
+        for body in ('normal', 'exception'):
+            out.append(build(rng, 'async', struct, CANCEL_REAL, 1, None, body))
+    for name, frames in SKELS:
+        for body in ('normal', 'brk', 'exception', 'cancelled'):
+            out.append(build_shaped(rng, 'async', rng.choice(['single', 'self-in']), name, frames, 1, 'after', CANCEL_REAL, body))
+    for c in out:
+        c['x']['tag'] = c['x']['tag'].replace('/', '/cancel-during-await/', 1)
+    # overlapping uses: the task of one use is cancelled inside its cleanup while another use of the same manager is live
+    for order in interleavings(2):
+        for who in (0, 1):
+            for body in ('normal', 'exception', 'cancelled'):
+                ga, fa = hist_gen(rng, 'async', who, None, 1, None, body)
+                ga['cleanup'] = gen_exc(rng, 'async', CANCEL_REAL, 10 + 10 * who + 2)
+                gb, fb = hist_gen(rng, 'async', 1 - who, None, 1, None, rng.choice(['normal', 'exception']))
+                gens, fins = ([ga, gb], [fa, fb]) if who == 0 else ([gb, ga], [fb, fa])
+                out.append(mk_hist(rng, 'async', order, gens, [ARGS_D, ARGS_D], fins, 'async/hist2-cancel-during-await'))
+    return out
+
+
 def rand_prog(rng, mode, depth, counter):
     """random program; ids are unique per program"""
     def fresh():
@@ -265,9 +482,16 @@ def rand_prog(rng, mode, depth, counter):
     if r < 0.45:
         return ['seq', rand_prog(rng, mode, depth - 1, counter), rand_prog(rng, mode, depth - 1, counter)]
     t = fresh()
+    if len(counter) == 1:        # per program: the source of the shared managers A and B (blocks of their own around the yield, or none)
+        counter.append({k: (lambda sk: sk and (sk[0], sk[1], rng.choice(SYNS)))(rng.choice([None, None] + SKELS)) for k in 'AB'})
     mgr = rng.choice([None, 'A', 'A', 'B'])          # the same decorated manager object nested in itself / reused
-    g = mk_gen(rng, mode, t, rng.choice([None] * 8 + ALPHA), rng.choice([1] * 10 + [0, 2]),
-               rng.choice([None] * 5 + ALPHA), 200 + 3 * t, mgr)
+    skel = counter[1][mgr] if mgr else rng.choice([None, None] + SKELS)
+    if skel is None:
+        g = mk_gen(rng, mode, t, rng.choice([None] * 8 + ALPHA), rng.choice([1] * 10 + [0, 2]),
+                   rng.choice([None] * 5 + ALPHA), 200 + 3 * t, mgr)
+    else:
+        g = mk_gen(rng, mode, t, rng.choice([None] * 8 + ALPHA), rng.choice([1] * 10 + [0, 2]),
+                   rng.choice([None] * 5 + ACT_KINDS), 200 + 3 * t, mgr, body=rand_body(rng, 300 + 6 * t, skel))
     return ['with', g, ARGS, rand_prog(rng, mode, depth - 1, counter)]
 
 
@@ -292,15 +516,40 @@ WRAPPED_VARIANTS = [(f'wrap:{o}:{i}', o, i, True) for o in WRAP_KINDS for i in W
     ('attr_only:generator', 'plain', 'generator', True), ('attr_only:asyncGenerator', 'plain', 'asyncGenerator', True)]
 
 
+# interpreter modes: 0 = this process; 1, 2, 3 = a child interpreter started with -O, with -OO, with PYTHONOPTIMIZE=1 in its environment
+# (assert statements are compiled away, `__debug__` is False; -OO also drops docstrings)
+OPT_MODES = {1: 'python -O', 2: 'python -OO', 3: 'PYTHONOPTIMIZE=1'}
+
+
 def deco_cases():
+    """every decoration target x both decorators x every interpreter mode"""
     out = []
-    for mode in ('sync', 'async'):
-        for label, kind, has_name in FN_VARIANTS:
-            out.append({'m': 'ctxmgr', 'c': {'kind': 'deco', 'mode': mode, 'fn': kind, 'hasName': has_name, 'variant': label},
-                        'x': {'tag': f'{mode}/deco/{kind}', 'trivial': False}})
-        for label, kind, ukind, has_name in WRAPPED_VARIANTS:
-            out.append({'m': 'ctxmgr', 'c': {'kind': 'deco', 'mode': mode, 'fn': kind, 'unwrapped': ukind, 'hasName': has_name, 'variant': label},
-                        'x': {'tag': f'{mode}/deco-wrapper/{kind}-around-{ukind}', 'trivial': False}})
+    for opt in (0, 1, 2, 3):
+        o = {'opt': opt} if opt else {}
+        for mode in ('sync', 'async'):
+            for label, kind, has_name in FN_VARIANTS:
+                out.append({'m': 'ctxmgr', 'c': {'kind': 'deco', 'mode': mode, 'fn': kind, 'hasName': has_name, 'variant': label, **o},
+                            'x': {'tag': f"{mode}/deco{'-O' + str(opt) if opt else ''}/{kind}", 'trivial': False}})
+            for label, kind, ukind, has_name in WRAPPED_VARIANTS:
+                out.append({'m': 'ctxmgr', 'c': {'kind': 'deco', 'mode': mode, 'fn': kind, 'unwrapped': ukind, 'hasName': has_name, 'variant': label, **o},
+                            'x': {'tag': f"{mode}/deco-wrapper{'-O' + str(opt) if opt else ''}/{kind}-around-{ukind}", 'trivial': False}})
+    return out
+
+
+def opt_prog_cases(rng, tier):
+    """a small sample of managers in use inside the optimised interpreters: single use, every block outcome, plain and self-protecting generators"""
+    out = []
+    for opt in (1, 2, 3):
+        for mode in ('sync', 'async'):
+            for body in BODIES:
+                cs = [build(rng, mode, 'single', None, 1, cl, body) for cl in (None, 'exception')]
+                cs += [build(rng, mode, 'single', 'baseExc', 1, None, body)] if body == 'normal' else []
+                name, frames = rng.choice(SKELS[1:])
+                cs.append(build_shaped(rng, mode, rng.choice(['single', 'self-in']), name, frames, 1, rng.choice([None, 't0']), 'exception', body))
+                for c in cs:
+                    c['c']['opt'] = opt
+                    c['x']['tag'] = c['x']['tag'].replace('/', f'-O{opt}/', 1)
+                out += cs
     return out
 
 
@@ -391,11 +640,15 @@ def mk_hist(rng, mode, order, gens, argss, bodies, tag):
     return {'m': 'ctxmgr', 'c': {'kind': 'hist', 'mode': mode, 'ops': ops}, 'x': {'tag': tag, 'trivial': False}}
 
 
-def hist_gen(rng, mode, i, setup, yields, cleanup, body, sig=None):
-    """use i: generator behaviour + block outcome; cleanup may be 'same' / 'chained' (relative to the block's own exception)"""
+def hist_gen(rng, mode, i, setup, yields, cleanup, body, sig=None, blocks=None):
+    """use i: generator behaviour + block outcome; cleanup may be 'same' / 'chained' (relative to the block's own exception);
+    blocks: the skeleton of the manager's generator function (try / with blocks of its own around the yield), statements drawn per use"""
     base = 10 + 10 * i
     fin = fin_of(rng, body, base + 3)
     be = fin[1] if fin[0] == 'raises' else None
+    if blocks is not None:
+        return mk_gen(rng, mode, i + 1, setup, yields, cleanup if cleanup in ACT_KINDS else None, base, 'M', sig,
+                      body=rand_body(rng, base + 5, blocks)), fin
     if cleanup in ('same', 'chained'):
         cleanup = (cleanup, be) if be is not None else None
     return mk_gen(rng, mode, i + 1, setup, yields, cleanup, base, 'M', sig), fin
@@ -443,8 +696,11 @@ def rand_hists(rng, n, label):
                 order.append(('E', entered)); live.append(entered); entered += 1
             else:
                 order.append(('X', live.pop(rng.randrange(len(live)))))
+        blocks = rng.choice([None, None] + SKELS)      # one manager: one source
+        if blocks is not None:
+            blocks = (blocks[0], blocks[1], rng.choice(SYNS))
         gf = [hist_gen(rng, mode, i, rng.choice([None] * 9 + ALPHA), rng.choice([1] * 12 + [0, 2]),
-                       rng.choice([None] * 5 + ALPHA + ['same', 'chained']), rng.choice(['normal'] * 3 + ['ret', 'brk'] + ALPHA), sig) for i in range(k)]
+                       rng.choice([None] * 5 + ALPHA + ['same', 'chained']), rng.choice(['normal'] * 3 + ['ret', 'brk'] + ALPHA), sig, blocks) for i in range(k)]
         out.append(mk_hist(rng, mode, order, [g for g, _ in gf], [rand_args(rng, sig) for _ in range(k)], [f for _, f in gf], f'{mode}/{label}'))
     return out
 
@@ -469,7 +725,7 @@ def cases(rng, tier):
                     c = build(rng, mode, struct, setup, yields, cleanup, body, returns)
                     if c is not None:
                         out.append(c)
-    out += args_cases(rng, tier) + selfnest3_cases(rng, tier) + hist_cases(rng, tier)
+    out += args_cases(rng, tier) + selfnest3_cases(rng, tier) + hist_cases(rng, tier) + shape_cases(rng, tier) + opt_prog_cases(rng, tier) + cancel_cases(rng, tier)
     if tier == 'thorough':
         # nested, both managers enumerated: outer over everything, inner over every cleanup outcome
         for mode in ('sync', 'async'):
@@ -522,6 +778,17 @@ def _classes():
     return d
 
 
+def body_excs(g):
+    """the exception objects the statements of the generator's own blocks raise"""
+    b = g.get('body')
+    if b is None:
+        return []
+    lists = [b.get('trail') or []]
+    for f in b['frames']:
+        lists += [f.get('rest') or [], f.get('else') or [], f.get('fin') or [], f.get('finExc') or []] + [h[1] for h in (f.get('handlers') or [])]
+    return [a[1] for l in lists for a in l if a[0] == 'raise']
+
+
 def kind_of(e):
     import asyncio
     if isinstance(e, StopIteration): return 'stopIteration'
@@ -534,43 +801,112 @@ def kind_of(e):
 
 
 _TEMPLATES = {}
+_SRC_DIR = []
+
+# classes an `except` clause of a generated user generator may name: wire name -> source text (`noMatch` on the Lean side: a class none
+# of the exception classes in play derives from)
+HANDLER_SRC = {'Exception': 'Exception', 'BaseException': 'BaseException', 'bare': None, 'RuntimeError': 'RuntimeError',
+               'StopIteration': 'StopIteration', 'GeneratorExit': 'GeneratorExit', 'CancelledError': '_E_.Cancelled',
+               'ArithmeticError': 'ArithmeticError'}
+SYNS = ['plain', 'for', 'if', 'while']       # what the yield statement itself sits in (no semantic content)
 
 
-def gen_factory(sig, mode):
-    """the user generator function with the given parameter list, compiled from source once per (signature, mode).  Its own names are
-    spelled so that no parameter name can clash with them; everything it does is delegated to the environment `_E_`."""
-    key = (sig, mode)
+def skeleton_of(body):
+    """the syntactic shape of a user generator with blocks of its own around the yield: everything the SOURCE TEXT depends on (the
+    statements themselves are looked up at run time).  None: the plain template `setup; (yield; after)*`"""
+    if body is None:
+        return None
+    return (body.get('syn', 'plain'),
+            tuple((f.get('kind', 'try'), tuple((h[0], bool(h[2])) for h in (f.get('handlers') or [])), f.get('else') is not None,
+                   f.get('fin') is not None) for f in body['frames']))
+
+
+def _block(frames, idx, ind, core):
+    """source lines of the frames 0..idx (innermost first) around the yield, outermost at indentation `ind`"""
+    pad = ' ' * ind
+    if idx < 0:
+        return core(ind)
+    kind, handlers, has_else, has_fin = frames[idx]
+    if kind == 'with':
+        return [f'{pad}with _E_.inner(_U_, "f{idx}", "x{idx}"):'] + _block(frames, idx - 1, ind + 4, core) + [f'{pad}    _E_.acts(_U_, "r{idx}")']
+    if not handlers and not has_fin:
+        raise RuntimeError('harness label: a try statement needs a handler or a finally clause')
+    lines = [f'{pad}try:'] + _block(frames, idx - 1, ind + 4, core) + [f'{pad}    _E_.acts(_U_, "r{idx}")']
+    for j, (cls, reraise) in enumerate(handlers):
+        lines.append(f'{pad}except {HANDLER_SRC[cls]}:' if HANDLER_SRC[cls] else f'{pad}except:')
+        lines.append(f'{pad}    _E_.acts(_U_, "h{idx}_{j}")')
+        if reraise:
+            lines.append(f'{pad}    raise')
+    if has_else:
+        lines += [f'{pad}else:', f'{pad}    _E_.acts(_U_, "e{idx}")']
+    if has_fin:
+        lines += [f'{pad}finally:', f'{pad}    _E_.acts(_U_, "f{idx}")']
+    return lines
+
+
+def gen_source(sig, mode, skel):
+    """source text of `_make_(_E_, _K_)` that defines the user generator function.  Its own names are spelled so that no parameter name
+    can clash with them; everything it does is delegated to the environment `_E_`."""
+    A = 'async ' if mode == 'async' else ''
+    susp = (lambda ind: [' ' * ind + 'if _U_.susp:', ' ' * ind + '    await _E_.sleep0()']) if mode == 'async' else (lambda ind: [])
+    after = (lambda i: f'await _E_.after_a(_U_, {i})') if mode == 'async' else (lambda i: f'_E_.after(_U_, {i})')
+    L = ['def _make_(_E_, _K_):', f'    {A}def user_gen({SIGS[sig]}):', '        _U_ = _E_.start(_K_, dict(locals()))'] + susp(8) + [('        await _E_.setup_a(_U_)' if mode == 'async' else '        _E_.setup(_U_)')]
+    if skel is None:
+        L += ['        for _i_ in range(_U_.n):', '            yield _U_.v'] + susp(12) + ['            ' + after('_i_')]
+    else:
+        syn, frames = skel
+
+        def core(ind):
+            pad = ' ' * ind
+            if syn == 'plain':
+                return [f'{pad}yield _U_.v'] + susp(ind) + [pad + after(0)]
+            head = {'for': 'for _j_ in (0,):', 'if': 'if _U_.n:', 'while': 'while True:'}[syn]
+            return [pad + head, f'{pad}    yield _U_.v'] + susp(ind + 4) + [pad + '    ' + after(0)] + ([f'{pad}    break'] if syn == 'while' else [])
+        L += ['        if _U_.n:'] + _block(frames, len(frames) - 1, 12, core) + ['            _E_.acts(_U_, "t")',
+              '            for _i_ in range(1, _U_.n):', '                yield _U_.v'] + susp(16) + ['                ' + after('_i_')]
+    L += ['        if _U_.returns:', '            return _U_.retval' if mode == 'sync' else '            return', '    return user_gen']
+    return '\n'.join(L) + '\n'
+
+
+def src_dir():
+    """generated generator functions live in real .py files of a short-lived directory (the library may call inspect.getsource)"""
+    if not _SRC_DIR:
+        import tempfile, atexit, shutil
+        d = tempfile.mkdtemp(prefix='pedverif_c16_')
+        atexit.register(shutil.rmtree, d, True)
+        _SRC_DIR.append(d)
+    return _SRC_DIR[0]
+
+
+def gen_factory(sig, mode, skel=None):
+    """the user generator function with the given parameter list (and the given blocks around its yield), one module per
+    (signature, mode, skeleton), written to a file and imported from there"""
+    key = (sig, mode, skel)
     if key not in _TEMPLATES:
-        if mode == 'sync':
-            src = (f'def _make_(_E_, _K_):\n'
-                   f'    def user_gen({SIGS[sig]}):\n'
-                   f'        _U_ = _E_.start(_K_, dict(locals()))\n'
-                   f'        _E_.setup(_U_)\n'
-                   f'        for _i_ in range(_U_.n):\n'
-                   f'            yield _U_.v\n'
-                   f'            _E_.after(_U_, _i_)\n'
-                   f'        if _U_.returns:\n'
-                   f'            return _U_.retval\n'
-                   f'    return user_gen\n')
-        else:
-            src = (f'def _make_(_E_, _K_):\n'
-                   f'    async def user_gen({SIGS[sig]}):\n'
-                   f'        _U_ = _E_.start(_K_, dict(locals()))\n'
-                   f'        if _U_.susp:\n'
-                   f'            await _E_.sleep0()\n'
-                   f'        _E_.setup(_U_)\n'
-                   f'        for _i_ in range(_U_.n):\n'
-                   f'            yield _U_.v\n'
-                   f'            if _U_.susp:\n'
-                   f'                await _E_.sleep0()\n'
-                   f'            _E_.after(_U_, _i_)\n'
-                   f'        if _U_.returns:\n'
-                   f'            return\n'
-                   f'    return user_gen\n')
-        ns = {}
-        exec(compile(src, f'<c16 user generator {sig}/{mode}>', 'exec'), ns)
-        _TEMPLATES[key] = ns['_make_']
+        import importlib.util, os
+        path = os.path.join(src_dir(), f'c16gen_{len(_TEMPLATES)}.py')
+        with open(path, 'w') as f:
+            f.write(gen_source(sig, mode, skel))
+        spec = importlib.util.spec_from_file_location(f'c16gen_{len(_TEMPLATES)}', path)
+        mod = importlib.util.module_from_spec(spec)
+        spec.loader.exec_module(mod)
+        _TEMPLATES[key] = mod._make_
     return _TEMPLATES[key]
+
+
+class _Inner:
+    """a with block of the user generator's own around its yield: `__exit__` runs one list of statements when an exception is
+    passing through and another when not; it never suppresses"""
+
+    def __init__(self, env, u, ok, exc):
+        self.env, self.u, self.ok, self.exc = env, u, ok, exc
+
+    def __enter__(self):
+        return self
+
+    def __exit__(self, t, v, tb):
+        self.env.acts(self.u, self.exc if t is not None else self.ok)
+        return False
 
 
 class Use:
@@ -584,6 +920,17 @@ class Use:
         self.retval = None if r is None or r[0] == 'none' else (TRUTHY_VALUES if r[0] == 'truthy' else FALSY_VALUES)[r[1]]
         self.a = a
         self.recv = None
+        self.slots = {}
+        b = g.get('body')
+        if b is not None:
+            for i, f in enumerate(b['frames']):
+                self.slots[f'r{i}'] = f.get('rest') or []
+                self.slots[f'e{i}'] = f.get('else') or []
+                self.slots[f'f{i}'] = f.get('fin') or []
+                self.slots[f'x{i}'] = f.get('finExc') or []
+                for j, h in enumerate(f.get('handlers') or []):
+                    self.slots[f'h{i}_{j}'] = h[1]
+            self.slots['t'] = b.get('trail') or []
 
 
 class Env:
@@ -600,17 +947,24 @@ class Env:
         self.sigs = {}
         self.mode, self.deco = c['mode'], deco
         self.pending = None
+        self.closed = False      # the case is over: whatever a generator left behind does when it is finalised is not part of the outcome
+        self.skels = {}
+        import asyncio
+        self.Cancelled = asyncio.CancelledError
         specs = []
         if c['kind'] == 'hist':
             for op in c['ops']:
                 if op[0] == 'enter':
-                    specs += [op[1][k] for k in ('setup', 'cleanup') if op[1][k] is not None]
+                    specs += [op[1][k] for k in ('setup', 'cleanup') if op[1][k] is not None] + body_excs(op[1])
                 elif op[2][0] == 'raises':
                     specs.append(op[2][1])
         else:
             self._collect(c['prog'], specs)
         for e in sorted(specs, key=lambda e: (e[2] is not None, e[1])):
             kind, oid, cause, cls = e
+            if cls == 'real-cancel':
+                self.raise_obj[oid] = None
+                continue
             if cls.startswith('user:'):
                 if cause not in self.objs:
                     self.objs[cause] = classes[cls[5:]]()
@@ -628,6 +982,7 @@ class Env:
             for k in ('setup', 'cleanup'):
                 if p[1][k] is not None:
                     specs.append(p[1][k])
+            specs += body_excs(p[1])
             self._collect(p[3], specs)
         elif p[0] == 'seq':
             self._collect(p[1], specs); self._collect(p[2], specs)
@@ -661,11 +1016,15 @@ class Env:
         """the decorated manager object of this use: `mgr` names it (uses with the same `mgr` call the SAME object, decorated once);
         without `mgr` the use gets a manager of its own"""
         key = g.get('mgr') or ('own', g['tag'])
+        skel = skeleton_of(g.get('body'))
         if key not in self.mgrs:
-            raw = gen_factory(g.get('sig', 'a_k'), self.mode)(self, key)
+            raw = gen_factory(g.get('sig', 'a_k'), self.mode, skel)(self, key)
             self.raws[key] = raw
             self.sigs[key] = g.get('sig', 'a_k')
+            self.skels[key] = skel
             self.mgrs[key] = self.deco(raw)
+        elif self.skels[key] != skel or self.sigs[key] != g.get('sig', 'a_k'):
+            raise RuntimeError(f'harness label: two uses of manager {key} disagree about the source of its generator function')
         return key, self.mgrs[key]
 
     def prepare(self, g, a):
@@ -721,10 +1080,45 @@ class Env:
         if u.se is not None:
             raise self.raise_obj[u.se[1]]
 
+    async def setup_a(self, u):
+        self.J.append(['setup', u.tag] + u.recv)
+        if u.se is not None:
+            await self.raise_a(u.se)
+
+    async def after_a(self, u, i):
+        if self.closed:
+            return
+        self.J.append(['cleanup', u.tag] if i == 0 else ['extra', u.tag])
+        if i == 0 and u.ce is not None:
+            await self.raise_a(u.ce)
+
+    async def raise_a(self, spec):
+        if spec[3] == 'real-cancel':
+            import asyncio
+            asyncio.current_task().cancel()
+            await asyncio.sleep(0)              # the cancellation is delivered here, inside the section
+            raise RuntimeError('harness label: the cancellation was not delivered')
+        raise self.raise_obj[spec[1]]
+
     def after(self, u, i):
+        if self.closed:
+            return
         self.J.append(['cleanup', u.tag] if i == 0 else ['extra', u.tag])
         if i == 0 and u.ce is not None:
             raise self.raise_obj[u.ce[1]]
+
+    def acts(self, u, slot):
+        """the statements of one slot of the generator's own blocks: journal a piece / raise an exception object"""
+        if self.closed:
+            return
+        for a in u.slots.get(slot, ()):
+            if a[0] == 'ev':
+                self.J.append(['piece', u.tag, a[1]])
+            else:
+                raise self.raise_obj[a[1][1]]
+
+    def inner(self, u, ok, exc):
+        return _Inner(self, u, ok, exc)
 
     def sleep0(self):
         import asyncio
@@ -751,7 +1145,7 @@ def ex_sync(env, p):
     r = None
     for _ in (0,):
         with cm(*pos, **kw) as v:
-            env.J.append(['bind', p[1]['tag'], VAL0 + p[1]['tag'] if v is env.val(p[1]['tag']) else -1])
+            env.J.append(['bind', p[1]['tag'], VAL0 + p[1]['tag'] if v is env.val(p[1]['tag']) else 0])
             r = ex_sync(env, p[3])
             if r == LEFT + ':ret':
                 return r                 # a real `return` out of the with block
@@ -780,7 +1174,7 @@ async def ex_async(env, p):
         cm, pos, kw = env.prepare(p[1], p[2])
         for _ in (0,):
             async with cm(*pos, **kw) as v:
-                env.J.append(['bind', p[1]['tag'], VAL0 + p[1]['tag'] if v is env.val(p[1]['tag']) else -1])
+                env.J.append(['bind', p[1]['tag'], VAL0 + p[1]['tag'] if v is env.val(p[1]['tag']) else 0])
                 r = await ex_async(env, p[3])
                 if isinstance(r, tuple):
                     e, r = r[1], None
@@ -794,6 +1188,9 @@ async def ex_async(env, p):
             raise
         return ('exc', e)
     except BaseException as e:
+        import asyncio
+        if isinstance(e, asyncio.CancelledError) and asyncio.current_task().cancelling():
+            asyncio.current_task().uncancel()        # a real cancellation (CANCEL_REAL) has been delivered and is now an outcome like any other
         return ('exc', e)
     return NORMAL if r is None else r    # r is None: the block raised and the manager swallowed the exception
 
@@ -803,7 +1200,8 @@ def finish(env, r, exc):
         fin = env.canon(exc)
     else:
         fin = [NORMAL] if r == NORMAL else [LEFT]
-    return {'journal': env.J, 'final': fin}
+    env.closed = True
+    return {'journal': list(env.J), 'final': fin}
 
 
 def run_prog_sync(c, classes, deco):
@@ -849,7 +1247,7 @@ def use_task_sync(env, g, a, box):
         cm, pos, kw = env.prepare(g, a)
         for _ in (0,):
             with cm(*pos, **kw) as v:
-                env.J.append(['bind', g['tag'], VAL0 + g['tag'] if v is env.val(g['tag']) else -1])
+                env.J.append(['bind', g['tag'], VAL0 + g['tag'] if v is env.val(g['tag']) else 0])
                 box['inside'] = True
                 yield 'inside'
                 box['inside'] = False
@@ -897,6 +1295,7 @@ def run_hist_sync(c, classes, deco):
                 except StopIteration as stop:
                     out = out_of(env, stop.value)
         outs.append({'evs': env.J[mark:], 'out': out})
+    env.closed = True
     for t in tasks:
         t.close()
     return {'ops': outs}
@@ -909,7 +1308,7 @@ async def use_task_async(env, g, a, box):
             cm, pos, kw = env.prepare(g, a)
             for _ in (0,):
                 async with cm(*pos, **kw) as v:
-                    env.J.append(['bind', g['tag'], VAL0 + g['tag'] if v is env.val(g['tag']) else -1])
+                    env.J.append(['bind', g['tag'], VAL0 + g['tag'] if v is env.val(g['tag']) else 0])
                     box['vid'] = env.J[-1][2]
                     box['inside'] = True
                     box['reached'].set()
@@ -965,6 +1364,7 @@ async def run_hist_async(c, classes, deco):
             if 'internal' in b:
                 raise b['internal']
         outs.append({'evs': env.J[mark:], 'out': out})
+    env.closed = True
     for t, b in zip(tasks, boxes):       # never reached by generated histories: uses that are still inside their block
         if not t.done():
             b['fin'] = ['normal']
@@ -1095,7 +1495,63 @@ def run_deco(c, decos):
     return {'deco': ['manager', via]}
 
 
+CHILD_BOOT = ('import sys; sys.path.insert(0, sys.argv[1]); import importlib; '
+              'sys.exit(importlib.import_module("props.C16").child_main())')
+
+
+def child_main():
+    """runs in a fresh interpreter (started with -O / -OO / PYTHONOPTIMIZE=1): cases on stdin, outcomes on stdout"""
+    import sys, json
+    try:        # report the library lines this process executes to the check that started it (core.LineCoverage)
+        import core
+        lc = core.linecov_child()
+    except Exception:
+        lc = None
+    cases = json.load(sys.stdin)
+    out = run_local(cases)
+    if lc is not None:
+        lc.stop()
+    json.dump({'optimize': sys.flags.optimize, 'out': out}, sys.stdout)
+    return 0
+
+
+def run_child(opt, cases):
+    import subprocess, sys, os
+    env = dict(os.environ)
+    env.pop('PYTHONOPTIMIZE', None)
+    if opt == 3:
+        env['PYTHONOPTIMIZE'] = '1'
+    harness = os.path.dirname(os.path.dirname(os.path.abspath(__file__)))
+    p = subprocess.run([sys.executable, '-B'] + {1: ['-O'], 2: ['-OO'], 3: []}[opt] + ['-c', CHILD_BOOT, harness],
+                       input=json.dumps([{'c': c['c']} for c in cases]), capture_output=True, text=True, env=env, timeout=600)
+    if p.returncode != 0:
+        raise RuntimeError(f'child interpreter ({OPT_MODES[opt]}) failed: {p.stderr[-1500:]}')
+    r = json.loads(p.stdout)
+    if r['optimize'] != {1: 1, 2: 2, 3: 1}[opt] or len(r['out']) != len(cases):
+        raise RuntimeError(f'child interpreter ({OPT_MODES[opt]}) ran with sys.flags.optimize={r["optimize"]}, answered {len(r["out"])}/{len(cases)} cases')
+    return r['out']
+
+
 def run_impl(cases):
+    """cases with c['opt'] in 1..3 run in child interpreters in optimised mode (started first, collected last), the others here"""
+    from concurrent.futures import ThreadPoolExecutor
+    groups = {}
+    for i, case in enumerate(cases):
+        groups.setdefault(int(case['c'].get('opt') or 0), []).append(i)
+    out = [None] * len(cases)
+    kids = sorted(k for k in groups if k)
+    with ThreadPoolExecutor(max_workers=max(1, len(kids))) as ex:
+        futs = {k: ex.submit(run_child, k, [cases[i] for i in groups[k]]) for k in kids}
+        here = groups.get(0, [])
+        for i, r in zip(here, run_local([cases[i] for i in here])):
+            out[i] = r
+        for k in kids:
+            for i, r in zip(groups[k], futs[k].result()):
+                out[i] = r
+    return out
+
+
+def run_local(cases):
     import asyncio, warnings
     import pedantic.decorators.fn_deco_context_manager as M
     classes = _classes()
@@ -1182,7 +1638,8 @@ def judge(case, impl, model):
             if impl['deco'][0] != 'manager':
                 pfail = f"decorating a {c['fn']} function ({c['variant']}) with the {c['mode']} decorator was rejected with {impl['deco'][1]}"
         elif impl['deco'][0] != 'rejected':
-            pfail = f"decorating a {c['fn']} function ({c['variant']}) with the {c['mode']} decorator was not rejected at decoration time"
+            pfail = (f"decorating a {c['fn']} function ({c['variant']}) with the {c['mode']} decorator was not rejected at decoration time"
+                     + (f" (interpreter started as {OPT_MODES[c['opt']]})" if c.get('opt') else ''))
         return {'corr': corr, 'pfail': pfail, 'nontrivial': True, 'tag': tag, 'why': '' if corr else f'decoration outcome {impl["deco"]} vs model {m}'}
     if c['kind'] == 'hist':
         return judge_hist(case, impl, model)
